@@ -107,5 +107,58 @@ pub mod sets {
     //@extract crates/jrsonnet-stdlib/src/sets.rs :: fn builtin_set_diff || s/a: ArrValue, b: ArrValue/a: input::ArrValue, b: input::ArrValue/1
     //@extract crates/jrsonnet-stdlib/src/sets.rs :: fn builtin_set_union || s/a: ArrValue, b: ArrValue/a: input::ArrValue, b: input::ArrValue/1
 }
+/// std.removeAt over *model arrays*: `slice` and `extended` of this stand-in implement the documented
+/// semantics (the integer model that the C08 harnesses show the real views to be equal to), so this
+/// checks the composition logic of the builtin — which index arguments it passes — for every `at`.
+pub mod remove {
+    use crate::error::Result;
+    use std::num::NonZeroU32;
+    pub const RCAP: usize = 4;
+    #[derive(Clone, Copy, Debug)]
+    pub struct ArrValue {
+        pub e: [i16; RCAP],
+        pub n: usize,
+    }
+    impl ArrValue {
+        /// Python-style slice (negative indexes count from the end, clamped), step >= 1
+        pub fn slice(self, index: Option<i32>, end: Option<i32>, step: Option<NonZeroU32>) -> Self {
+            let len = self.n as i64;
+            let norm = |p: Option<i32>, d: i64| match p {
+                None => d,
+                Some(v) if v < 0 => (len + v as i64).max(0),
+                Some(v) => (v as i64).min(len),
+            };
+            let (f, t) = (norm(index, 0), norm(end, len));
+            let st = step.map_or(1, |s| s.get() as i64);
+            let mut out = ArrValue { e: [0; RCAP], n: 0 };
+            let mut i = 0i64;
+            while i < RCAP as i64 {
+                if i >= f && i < t && (i - f) % st == 0 {
+                    out.e[out.n] = self.e[i as usize];
+                    out.n += 1;
+                }
+                i += 1;
+            }
+            out
+        }
+        pub fn extended(a: Self, b: Self) -> Self {
+            let mut out = a;
+            let mut i = 0;
+            while i < RCAP {
+                if i < b.n {
+                    assert!(out.n < RCAP * 2, "harness: model array capacity");
+                    if out.n < RCAP {
+                        out.e[out.n] = b.e[i];
+                    }
+                    out.n += 1;
+                }
+                i += 1;
+            }
+            out
+        }
+    }
+    //@extract crates/jrsonnet-stdlib/src/arrays.rs :: fn builtin_remove_at
+}
+
 #[cfg(kani)]
 mod harnesses;
